@@ -4,6 +4,7 @@
 From Coq Require Import ZArith List Bool.
 From BV Require Import Lib.Cases Model.LaxSem Model.Restart Model.Pool
      Proofs.PoolJobs Proofs.PoolInv Proofs.PoolScan Proofs.PoolTick Proofs.PoolSup Proofs.PoolCor.
+From BV Require Import Proofs.PoolHist.
 From BV Require Import Proofs.PoolRefuted.
 From BV Require Lib.PyVal Gen.G_pool_shape Gen.K_timedout Proofs.PoolKernel.
 Import ListNotations.
@@ -93,6 +94,16 @@ Definition c05_cfg := mkcfg 1 None (Some 5) None (Some 5) 1 false false.
 Definition c05_tr : list event :=
   [EApply None None None None; EAck 0 None 0; EAdvance 5; EScan true; ETick;
    EApply None None None None; EAck 1 None 1; EReady 1 None true 42].
+(* never early, over whole histories (clock advances non-negative): a job reported as timed out
+   had been accepted, had an effective hard limit, and that limit had elapsed *)
+Theorem C05_timed_out_was_due : forall c tr j x l,
+    advances_nonneg tr ->
+    get_job (run c tr) j = Some x -> kind x = KApply -> value x = Some (PTimeLimit l) ->
+    exists t lim, time_accepted x = Some t /\ eff_hard (run c tr) x = Some lim
+                  /\ lim <> 0 /\ t <> 0 /\ l = hard x /\ t + lim <= now (run c tr).
+Proof. exact timed_out_was_due. Qed.
+Print Assumptions C05_timed_out_was_due.
+
 (* ---- not satisfied by the pinned tree (known finding C05:limit-without-scanner): a job's own
    limit on a pool created without limits is enforced by nobody *)
 Theorem C05_per_job_limit_enforced_refuted :
